@@ -64,6 +64,21 @@ def nl_variants(f, rng=None, k=None):
     return ['=' + ''.join(toks[:i]) + '\n' + ''.join(toks[i:]) for i in idx]
 
 
+def split_variants(f, rng=None, k=None):
+    """the formula with one blank inserted INSIDE a multi-character token (a number, a reference, a two-character comparison sign,
+    a function name): a different text, which must not be read as the original formula"""
+    toks = tokens_of(f[1:])
+    idx = [i for i, t in enumerate(toks) if len(t) >= 2 and not t.isspace() and not t.startswith('"') and not t.startswith("'")]
+    if k is not None and rng is not None and len(idx) > k:
+        idx = rng.sample(idx, k)
+    out = []
+    for i in idx:
+        t = toks[i]
+        cut = 1 if rng is None else rng.randint(1, len(t) - 1)
+        out.append('=' + ''.join(toks[:i]) + t[:cut] + ' ' + t[cut:] + ''.join(toks[i + 1:]))
+    return out
+
+
 def ws_variant(rng, f):
     toks = tokens_of(f[1:])
     out = []
@@ -176,6 +191,10 @@ def make_case(rc):
         _, bsig, _ = analyse(rc['nl_of'])
         if sig[0] == 'parsed' and sig != bsig:
             fail = 'the formula with a line break is accepted but read differently from %r: %r vs %r' % (rc['nl_of'], sig[1:], bsig[1:])
+    if fail is None and rc.get('split_of'):
+        _, bsig, _ = analyse(rc['split_of'])
+        if sig[0] == 'parsed' and bsig[0] == 'parsed' and sig == bsig:
+            fail = 'a blank INSIDE a token was ignored: the formula is read exactly as %r' % rc['split_of']
     if fail is None and rc.get('same_as'):
         _, bsig, _ = analyse(rc['same_as'])
         if bsig[0] == 'parsed' and sig != bsig:
@@ -212,6 +231,8 @@ def run(R, tier):
             recipes.append({'formula': f.replace(',', ';') if ',' in f else f.replace(';', ','), 'same_as': f})
         for v in nl_variants(f, R.rng, 2 if tier == 'quick' else 8):
             recipes.append({'formula': v, 'nl_of': f})
+        for v in split_variants(f, R.rng, 2 if tier == 'quick' else 8):
+            recipes.append({'formula': v, 'split_of': f, 'mutated': True})
     cases = []
     for rc in recipes:
         try:
@@ -235,6 +256,11 @@ def run(R, tier):
             for v in nl_variants(f):
                 try:
                     out.append(make_case({'formula': v, 'nl_of': f}))
+                except Timeout:
+                    pass
+            for v in split_variants(f):
+                try:
+                    out.append(make_case({'formula': v, 'split_of': f, 'mutated': True}))
                 except Timeout:
                     pass
         return out
